@@ -271,6 +271,9 @@ def mention_strategy():
         st.builds(lambda v: ['#', [v]], ident),
         st.builds(lambda n, v: ['a', n, 'raw', [v], False], st.sampled_from(['t', 'title', 'data-a']), st.text('abc123', min_size=1, max_size=3)),
         st.builds(lambda n, v: ['a', n, 'dq', [v] if v else [], False], st.sampled_from(['u', 'title']), st.text('abc 12', max_size=5)),
+        # names listed in output.booleanAttributes WITH a value written: the value is kept (only a value-less one is printed bare / `=true`)
+        st.builds(lambda n, v: ['a', n, 'raw', [v], False], st.sampled_from(['hidden', 'contenteditable', 'disabled', 'checked']), st.sampled_from(['false', 'until-found', 'x'])),
+        st.builds(lambda n, v: ['a', n, 'dq', [v], False], st.sampled_from(['hidden', 'contenteditable', 'disabled']), st.sampled_from(['false', 'a b'])),
         st.builds(lambda n: ['a', n, 'none', None, False], st.sampled_from(['t', 'disabled'])),
         st.builds(lambda n: ['a', n, 'bool', None, False], st.sampled_from(['d', 'e'])),
     )
